@@ -73,6 +73,41 @@ def judge(case):
     return {"viol": viol, "nontrivial": True, "tags": tags, "key": text, "sample": {"text": text[:300], "mutations": case.get("kinds")}}
 
 
+def run_atheris(ctx, rec, runs, part="atheris"):
+    """one libFuzzer campaign in a child process (fresh corpus dir under /verif/scratch, removed afterwards)"""
+    import json
+    import shutil
+    import subprocess
+    import sys
+
+    verif = os.path.dirname(os.path.dirname(os.path.dirname(os.path.abspath(__file__))))
+    work = os.path.join(verif, "scratch", "atheris-%s-%d-%d" % (ctx.pid, os.getpid(), ctx.shard))
+    os.makedirs(work, exist_ok=True)
+    out = os.path.join(work, "result.json")
+    corpus = "seeded" if ctx.shard % 2 == 0 else "empty"
+    try:
+        cmd = [sys.executable, "-B", os.path.join(verif, "pyabverif", "fuzz_c06.py"), "--out", out, "--runs", str(runs),
+               "--seed", str(ctx.derived_seed("atheris") % (2 ** 31 - 1) + 1), "--corpus", corpus, "--workdir", work]
+        p = subprocess.run(cmd, stdout=subprocess.PIPE, stderr=subprocess.PIPE, text=True)
+        if not os.path.exists(out):
+            rec.note("atheris campaign unavailable: %s" % (p.stderr[-300:],))
+            return None
+        with open(out) as f:
+            st_ = json.load(f)
+    finally:
+        shutil.rmtree(work, ignore_errors=True)
+        try:
+            os.rmdir(os.path.join(verif, "scratch"))
+        except OSError:
+            pass
+    rec.evaluations += st_["execs"]
+    rec.count("atheris:execs", st_["execs"])
+    rec.count("atheris:corpus-" + corpus)
+    for k in ("reject", "accept", "ambiguous"):
+        rec.count("atheris:reference-" + k, st_[k])
+    return st_
+
+
 def judge_case(record):
     return judge(record["case"])["viol"]
 
@@ -129,3 +164,13 @@ def run(ctx, rec):
     if rec.violations:
         return
     runner.hyp_run(ctx, rec, "char-mutations", char_cases(_repo_programs()), judge, ctx.n(1000, 8000))
+    if rec.violations or ctx.quick:
+        return
+    st_ = run_atheris(ctx, rec, 60000)
+    if st_:
+        rec.nontrivial.update(st_["digests"])
+        for t in st_["samples"][:1]:
+            rec.samples.append({"atheris_rejected_text": t})
+        if st_["violation"] is not None:
+            rec.violation("atheris", {"text": st_["violation"], "kinds": ["atheris"], "level": "atheris"},
+                          ["text outside the grammar was compiled into an evaluator | %r" % (st_["violation"],)])
